@@ -168,6 +168,21 @@ func (u *unit) run() {
 		s.pc = append(s.pc, e.evalBool(c.e))
 	}
 	s.old = s.snapshot()
+	// site clauses whose program point no longer exists: an assertion there can no longer be
+	// established (fails by name); ghost updates and hints are dropped with a note
+	for _, ss := range u.ct.sites {
+		if siteExists(u.fn, ss.site) {
+			continue
+		}
+		for i, c := range ss.clauses {
+			if c.kind == "assert" {
+				s.oblige("assert", clauseLabel(c, i), c.src+"  [the program point `"+ss.site+"` no longer exists in "+u.name()+"]", "false", u.fn.Pos(), "missing:"+strings.ReplaceAll(ss.site, " ", "_"), false)
+			} else {
+				u.notes["site clause dropped, `"+ss.site+"` no longer exists: "+c.src] = true
+				fmt.Println("note: site clause dropped, `" + ss.site + "` no longer exists in " + u.name() + ": " + c.src)
+			}
+		}
+	}
 	// vacuity cover: the precondition must be satisfiable
 	u.covers = append(u.covers, &oblig{name: u.name() + "#cover.requires", kind: "cover", pc: append([]string(nil), s.pc...), goal: "false", clause: "precondition satisfiable"})
 	if len(u.fn.Blocks) == 0 {
